@@ -9,7 +9,10 @@ PROP = {
     "runs": [{"tag": "c06", "bin": "c06"},
              # element type without drop glue but with an observable Clone (clone adds 2^20): a bitwise-copy
              # shortcut in GenericArrayIter::clone is invisible for u32
-             {"tag": "c06cn", "bin": "c06", "args": ["--elem", "cn"], "num": 106}],
+             {"tag": "c06cn", "bin": "c06", "args": ["--elem", "cn"], "num": 106},
+             # next / next_back / nth / nth_back / len / size_hint / as_slice run through the programs
+             # REGENERATED from src/iter.rs (GenRun.v)
+             {"tag": "c06gen", "bin": "c06", "num": 206}],
     "mismatch_is_failing": True,
     "regen_files": ["GenIter.v"],
     "rule": "exhaustive: every reachable (front,back) position (directly and through clone) x every operation x every argument 0..=len+2 and usize::MAX for N<=5 (thorough: N<=8), followed by a fixed observation trailer; plus seeded histories over N in {0,1,2,3,5,8,16,97,1024}. distinct = distinct CASE lines; non-trivial = the array is non-empty (first integer > 0)",
